@@ -114,7 +114,7 @@ def body(m, cfg):
         args = dict(dx=Array(sz[0], unit=uss[0]), dy=Array(sz[1], unit=uss[1]), dz=Array(sz[2], unit=uss[2]), origin=origin)
     before = {}
     for name, (_, g) in groups.items():
-        before[name] = {k: ([m.vals(c._array) for c in (g[k]._xyz.values() if hasattr(g[k], "_xyz") else [g[k]])], str(g[k].unit), id(g[k]))
+        before[name] = {k: ([m.vals(c._array) for c in (C.vcomps(g[k]).values() if C.is_vec(g[k]) else [g[k]])], str(g[k].unit), id(g[k]))
                         for k in g.keys()}
     f = osyris.extract_sphere if region == "sphere" else osyris.extract_box
     try:
@@ -133,7 +133,7 @@ def body(m, cfg):
             m.require(name not in sub, "group without usable positions is left out", key=f"skip:{tag}")
             continue
         pos = g["position"] if posrule == "own" else mesh_pos
-        P = [[m.t(t) for t in m.vals(c._array)] for c in pos._xyz.values()]      # cm
+        P = [[m.t(t) for t in m.vals(c._array)] for c in C.vcomps(pos).values()]      # cm
         inside, clearly_in, clearly_out = [], [], []
         for r in range(n):
             d = [P[k][r] - ov[k] for k in range(3)]
@@ -161,7 +161,7 @@ def body(m, cfg):
                 clearly_in.append(m.And(ins))
                 clearly_out.append(m.Or(outs))
         # which rows did osyris keep?  (provenance of the distinct payload member)
-        pay = [k for k in g.keys() if k != "position" and not hasattr(g[k], "_xyz")][0]
+        pay = [k for k in g.keys() if k != "position" and not C.is_vec(g[k])][0]
         src = before[name][pay][0][0]
         kept = []
         if name in sub:
@@ -181,7 +181,7 @@ def body(m, cfg):
             m.require(list(sg.keys()) == list(g.keys()), "all variables of the group are kept", key=f"members:{tag}:{name}")
             for k in g.keys():
                 cols0 = before[name][k][0]
-                comps = list(sg[k]._xyz.values()) if hasattr(sg[k], "_xyz") else [sg[k]]
+                comps = list(C.vcomps(sg[k]).values()) if C.is_vec(sg[k]) else [sg[k]]
                 ok = len(comps) == len(cols0) and all(
                     C.same_terms(m, m.vals(c._array), [col[j] for j in kept]) for c, col in zip(comps, cols0))
                 m.require(ok, f"member {k} row-aligned with the selection", key=f"aligned:{tag}:{name}:{k}")
@@ -191,7 +191,7 @@ def body(m, cfg):
     for name, (_, g) in groups.items():
         ok = list(g.keys()) == list(before[name].keys())
         for k in g.keys():
-            comps = list(g[k]._xyz.values()) if hasattr(g[k], "_xyz") else [g[k]]
+            comps = list(C.vcomps(g[k]).values()) if C.is_vec(g[k]) else [g[k]]
             ok = ok and id(g[k]) == before[name][k][2] and str(g[k].unit) == before[name][k][1] and \
                 all(C.same_terms(m, m.vals(c._array), col) for c, col in zip(comps, before[name][k][0]))
         m.require(ok, "input dataset unchanged", key=f"input-changed:{tag}")
